@@ -47,7 +47,16 @@ func c10Records(c *mon.Ctx, r *mon.Rand) {
 	pool := newStrPool(r, true, false, false)
 	rc := pool.root(r)
 	mode := []string{"plain", "cached", "both"}[r.Intn(3)]
-	opts := tally.ScopeOptions{Prefix: rc.Prefix, Separator: rc.Sep, Tags: copyTagMap(rc.Tags), OmitCardinalityMetrics: r.Bool()}
+	// two in five histories configure a sanitizer: the delivery carries the
+	// sanitized fully qualified name and the scope's sanitized tags, whichever
+	// reporter kind receives it
+	if r.Chance(2, 5) {
+		rc.San = genSanCfg(r)
+		if _, amb := rc.rootIdent(); amb {
+			rc.San = nil
+		}
+	}
+	opts := tally.ScopeOptions{Prefix: rc.Prefix, Separator: rc.Sep, Tags: copyTagMap(rc.Tags), OmitCardinalityMetrics: r.Bool(), SanitizeOptions: rc.San.opts()}
 	prec, crec := mon.NewPlainRec(true), mon.NewCachedRec(true)
 	// what a reporter says about its capabilities (a fan-out with a placeholder
 	// child says "not reporting") does not change what timers forward to it
@@ -69,8 +78,8 @@ func c10Records(c *mon.Ctx, r *mon.Rand) {
 	for i := 0; i < nsc; i++ {
 		p := pool.prog(r, 3)
 		progs = append(progs, p)
-		ids, _ := rc.trace(p)
-		if collides(ids) {
+		ids, amb := rc.trace(p)
+		if collides(ids) || amb {
 			continue
 		}
 		ss := p.clone().apply(root)
@@ -85,7 +94,7 @@ func c10Records(c *mon.Ctx, r *mon.Rand) {
 		return map[string]interface{}{"root": rc, "reporters": mode, "programs": progs, "ops": ops}
 	}
 	c.Distinct(mon.Hash64(fmt.Sprint(rc), mode, fmt.Sprint(progs), fmt.Sprint(r.U64())))
-	names := []string{"t", "u", pool.names[0]}
+	names := []string{"t", "u", pool.names[0], "t m:1/é"}
 	nops := r.Range(3, 40)
 	// a third of the histories close one of the derived scopes part-way: timers
 	// are synchronous pass-throughs, a Record on a closed subscope (old or new
@@ -452,6 +461,15 @@ func c10TestScope(c *mon.Ctx, r *mon.Rand) {
 			case r.Chance(1, 6):
 				check("mid-history")
 				ops = append(ops, "snapshot")
+			case r.Chance(1, 10):
+				// closing a derived test scope takes nothing away: what its timers
+				// recorded stays in the snapshots, and later Records are added
+				s := scs[r.Intn(len(scs))]
+				if cl, ok := s.sc.(io.Closer); ok && s.sc != tally.Scope(ts) {
+					cl.Close()
+					ops = append(ops, fmt.Sprintf("Close scope %q%v", s.id.Prefix, s.id.Tags))
+					c.Event("testscope-subscope-closes", 1)
+				}
 			default:
 				s := scs[r.Intn(len(scs))]
 				name := names[r.Intn(len(names))]
